@@ -1,8 +1,10 @@
 /-
 Translated Python (`BtcHd.Code`, generated from /repo by harness/translate.py) = hand-written model:
-`wallet_utils.py` `Bip32Path.convert_hardened` and `Bip32Path.is_hardened`.
+`wallet_utils.py` `Bip32Path.convert_hardened`, `Bip32Path.is_hardened`, `list_get`, `Bip32Path.is_private`,
+`Bip32Path.integrity_check` and `Bip32Path.parse` (C17).
 -/
 import BtcHd.Lemmas.Translated
+import BtcHd.Lemmas.Path
 
 namespace BtcHd.Translated
 open BtcHd
@@ -41,6 +43,172 @@ theorem convertHardened_eq (s : List Char) : Code.convert_hardened s = Path.conv
 /-- The translated `is_hardened` tests `2 ^ 31 ≤ n`. -/
 theorem isHardened_eq (n : Nat) : Code.is_hardened n = decide (2 ^ 31 ≤ n) := by
   simp [Code.is_hardened]
+
+section parser
+open BtcHd.Path
+
+theorem forIn_integrity (slots : List (Option Nat)) (nf : Bool) :
+    (forIn (m := Option) slots nf fun item __s =>
+        if item = none then pure (ForInStep.yield true)
+        else if __s = true then (do (none : Option PUnit); pure (ForInStep.yield __s))
+        else pure (ForInStep.yield __s)).isSome =
+      (if nf then slots.all Option.isNone else integrity slots) := by
+  induction slots generalizing nf with
+  | nil => cases nf <;> rfl
+  | cons a l ih =>
+    rw [List.forIn_cons]
+    cases a with
+    | none =>
+      refine Eq.trans (ih true) ?_
+      cases nf <;> simp [integrity]
+    | some v =>
+      cases nf with
+      | true => rfl
+      | false =>
+        refine Eq.trans (ih false) ?_
+        simp [integrity]
+
+/-- The translated `integrity_check` (on the five optional slots) is the model's `integrity`: no value after a `None`. -/
+theorem integrity_check_eq (slots : List (Option Nat)) :
+    Code.integrity_check slots = if integrity slots then some () else none := by
+  unfold Code.integrity_check
+  simp only []
+  have h := forIn_integrity slots false
+  simp only [Bool.false_eq_true, if_false] at h
+  generalize hf : (forIn (m := Option) slots false fun item __s =>
+        if item = none then pure (ForInStep.yield true)
+        else if __s = true then (do (none : Option PUnit); pure (ForInStep.yield __s))
+        else pure (ForInStep.yield __s)) = r at h ⊢
+  cases r with
+  | none => simp at h; simp [h]
+  | some x => simp at h; simp [h]
+
+/-- The translated `is_private`: exactly the mark `m`. -/
+theorem is_private_eq (sign : List Char) : Code.is_private sign = decide (sign = ['m']) := by
+  unfold Code.is_private
+  by_cases h : sign = ['m'] <;> simp [h]
+
+theorem code_slot (o : Option (List Char)) :
+    (if o ≠ none ∧ o ≠ some [] then (do let x ← convertHardened (o.getD []); pure (some x)) else pure none
+      : Option (Option Nat)) = match o with | none => some none | some c => slot c := by
+  cases o with
+  | none => simp
+  | some c =>
+    by_cases hc : c = []
+    · subst hc; simp [Path.slot]
+    · simp only [ne_eq, reduceCtorEq, not_false_eq_true, Option.some.injEq, hc, and_self, if_true, Option.getD_some, Path.slot,
+        if_false]
+      cases convertHardened c <;> rfl
+
+theorem integrity_pad (vals : List (Option Nat)) (k : Nat) :
+    integrity (vals ++ List.replicate k none) = integrity vals := by
+  induction vals with
+  | nil => cases k <;> simp [integrity, List.replicate]
+  | cons a l ih =>
+    cases a with
+    | some v => simpa [integrity] using ih
+    | none => simp [integrity, List.all_append]
+
+theorem filterMap_pad (vals : List (Option Nat)) (k : Nat) :
+    (vals ++ List.replicate k none).filterMap id = vals.filterMap id := by
+  simp [List.filterMap_append, List.filterMap_replicate_of_none]
+
+/-- The translated `Bip32Path.parse` (split at `/`, root mark, `list_get` at positions 1..5, `convert_hardened(x) if x
+else None`, the constructor's integrity check) returns the five optional slots; keeping the non-`None` ones gives
+exactly the model's `Path.parse` — on every string (K1 included: components beyond the fifth are never looked at). -/
+theorem path_parse_eq (s : List Char) :
+    (Code.path_parse s).map (fun r => (⟨r.1.filterMap id, r.2⟩ : Path.Path)) = Path.parse s := by
+  unfold Code.path_parse Path.parse
+  simp only [convertHardened_eq, integrity_check_eq, is_private_eq, Code.list_get]
+  have hs : Char.ofNat 47 = '/' := rfl
+  have hm : Char.ofNat 109 = 'm' := rfl
+  have hM : Char.ofNat 77 = 'M' := rfl
+  rw [hs, hm, hM]
+  cases hsp : Text.splitOn '/' s with
+  | nil => exact absurd hsp (Text.splitOn_ne_nil _ _)
+  | cons root comps =>
+    simp only [List.getElem!_cons_zero, List.mem_cons, List.not_mem_nil, or_false]
+    by_cases hr : root = ['m'] ∨ root = ['M']
+    · simp only [hr, not_true_eq_false, if_false, if_true, code_slot, List.getElem?_cons_succ]
+      have hfun : (fun c => if c = [] then some none else Option.map some (convertHardened c)) = Path.slot := rfl
+      rw [hfun]
+      -- the five slots of the code are the model's slots of the first five components, padded with `none`
+      have key : ∀ (vals : List (Option Nat)) (k : Nat) (p : Bool),
+          (if integrity (vals ++ List.replicate k none) = true then some () else none : Option Unit).bind
+              (fun _ => some ((⟨(vals ++ List.replicate k none).filterMap id, p⟩ : Path.Path))) =
+            if integrity vals = true then some ⟨vals.filterMap id, p⟩ else none := by
+        intro vals k p
+        rw [integrity_pad, filterMap_pad]
+        by_cases hi : integrity vals = true <;> simp [hi]
+      match comps with
+      | [] => (have e1 := integrity_pad [] 5; have e2 := filterMap_pad [] 5; simp only [List.replicate, List.cons_append, List.nil_append] at e1 e2; by_cases hi : integrity [] = true <;> simp [e1, hi] <;> exact e2)
+      | [a] =>
+        simp only [List.getElem?_cons_zero, List.getElem?_cons_succ, List.getElem?_nil, List.take, List.mapM_cons,
+          List.mapM_nil]
+        cases slot a with
+        | none => rfl
+        | some x => (have e1 := integrity_pad [x] 4; have e2 := filterMap_pad [x] 4; simp only [List.replicate, List.cons_append, List.nil_append] at e1 e2; by_cases hi : integrity [x] = true <;> simp [e1, hi] <;> exact e2)
+      | [a, b] =>
+        simp only [List.getElem?_cons_zero, List.getElem?_cons_succ, List.getElem?_nil, List.take, List.mapM_cons,
+          List.mapM_nil]
+        cases slot a with
+        | none => rfl
+        | some x =>
+          cases slot b with
+          | none => rfl
+          | some y => (have e1 := integrity_pad [x, y] 3; have e2 := filterMap_pad [x, y] 3; simp only [List.replicate, List.cons_append, List.nil_append] at e1 e2; by_cases hi : integrity [x, y] = true <;> simp [e1, hi] <;> exact e2)
+      | [a, b, c] =>
+        simp only [List.getElem?_cons_zero, List.getElem?_cons_succ, List.getElem?_nil, List.take, List.mapM_cons,
+          List.mapM_nil]
+        cases slot a with
+        | none => rfl
+        | some x =>
+          cases slot b with
+          | none => rfl
+          | some y =>
+            cases slot c with
+            | none => rfl
+            | some z => (have e1 := integrity_pad [x, y, z] 2; have e2 := filterMap_pad [x, y, z] 2; simp only [List.replicate, List.cons_append, List.nil_append] at e1 e2; by_cases hi : integrity [x, y, z] = true <;> simp [e1, hi] <;> exact e2)
+      | [a, b, c, d] =>
+        simp only [List.getElem?_cons_zero, List.getElem?_cons_succ, List.getElem?_nil, List.take, List.mapM_cons,
+          List.mapM_nil]
+        cases slot a with
+        | none => rfl
+        | some x =>
+          cases slot b with
+          | none => rfl
+          | some y =>
+            cases slot c with
+            | none => rfl
+            | some z =>
+              cases slot d with
+              | none => rfl
+              | some u => (have e1 := integrity_pad [x, y, z, u] 1; have e2 := filterMap_pad [x, y, z, u] 1; simp only [List.replicate, List.cons_append, List.nil_append] at e1 e2; by_cases hi : integrity [x, y, z, u] = true <;> simp [e1, hi] <;> exact e2)
+      | a :: b :: c :: d :: e :: rest =>
+        simp only [List.getElem?_cons_zero, List.getElem?_cons_succ, List.take, List.mapM_cons, List.mapM_nil]
+        cases slot a with
+        | none => rfl
+        | some x =>
+          cases slot b with
+          | none => rfl
+          | some y =>
+            cases slot c with
+            | none => rfl
+            | some z =>
+              cases slot d with
+              | none => rfl
+              | some u =>
+                cases slot e with
+                | none => rfl
+                | some w => (have e1 := integrity_pad [x, y, z, u, w] 0; have e2 := filterMap_pad [x, y, z, u, w] 0; simp only [List.replicate, List.cons_append, List.nil_append] at e1 e2; by_cases hi : integrity [x, y, z, u, w] = true <;> simp [e1, hi] <;> exact e2)
+    · simp [hr]
+
+end parser
+
+example : (Code.path_parse "m/44'/0'/0'/0/7".toList).map (·.1.filterMap id) = some [2147483692, 2147483648, 2147483648, 0, 7] := by
+  decide +kernel
+example : Code.path_parse "m/0//1".toList = none := by decide +kernel
+example : Code.path_parse "x/0".toList = none := by decide +kernel
 
 example : Code.convert_hardened [] = none := by decide +kernel
 example : Code.convert_hardened "44'".toList = some (44 + 2 ^ 31) := by decide +kernel
